@@ -640,10 +640,18 @@ start:
 						// switched-over interface value itself.
 						s.set(v, s.get(tuple.Tag))
 					} else {
-						// There is no Extract for the 'untyped nil' case,
-						// which means that executing any Extract from a type
-						// switch implies that the switched-over value wasn't a
-						// nil interface value.
+						if typ, ok := tuple.Conds[idx].(*types.Basic); ok && typ.Kind() == types.UntypedNil {
+							// 'nil' listed together with other types in one
+							// case. Here, the switched-over value is nil, and
+							// so is the value bound by the case.
+							s.set(tuple.Tag, ValueNilness{AlwaysNil, AlwaysNil})
+							s.set(v, ValueNilness{AlwaysNil, AlwaysNil})
+							continue
+						}
+						// There is no Extract for a case that consists of
+						// 'untyped nil' only, which means that executing any
+						// other Extract from a type switch implies that the
+						// switched-over value wasn't a nil interface value.
 						s.setOuter(tuple.Tag, NeverNil)
 						// In a case that lists several types, the bound value
 						// has the type of the switched-over value, not that of
